@@ -50,8 +50,10 @@ pub fn expected(data: &[u8]) -> Expected {
         let o = node.parse(line, true, false);
         e.kinds.push(o.kind());
         match o {
+            // "containing the decoded message": the message's own Debug text (which `Some(..)`
+            // around it contains too); how the tool wraps or spaces it is its choice (`compare`)
             Outcome::Complete(s, _) => e.out.push(vec![match s.message {
-                Some(m) => format!("Some({})", m),
+                Some(m) => m,
                 None => "None".to_string(),
             }]),
             Outcome::Incomplete(..) => {}
@@ -85,6 +87,16 @@ fn contains(hay: &[u8], needle: &[u8]) -> bool {
     hay.windows(needle.len()).any(|w| w == needle)
 }
 
+/// letters, digits and the characters numbers are made of; everything else (spacing, brackets,
+/// quotes, line breaks inside a pretty-printed record ...) is the tool's choice
+fn squeeze(b: &[u8]) -> Vec<u8> {
+    b.iter().copied().filter(|c| c.is_ascii_alphanumeric() || matches!(c, b'.' | b'-' | b'+' | b'_')).collect()
+}
+
+fn record_matches(r: &[u8], alts: &[String]) -> bool {
+    alts.iter().any(|alt| contains(r, alt.as_bytes()) || contains(&squeeze(r), &squeeze(alt.as_bytes())))
+}
+
 fn compare(which: &str, got: &[u8], want: &[Vec<String>]) -> Option<(String, String)> {
     let (recs, terminated) = records(got);
     if recs.len() != want.len() {
@@ -101,8 +113,19 @@ fn compare(which: &str, got: &[u8], want: &[Vec<String>]) -> Option<(String, Str
     if !terminated {
         return Some((format!("{}-record-count", which), format!("the last {} record is not newline-terminated", which)));
     }
+    // The statement prescribes no content for a stderr record, only that there is one per
+    // rejected line, in input order. Order can be seen only through content, so content is
+    // compared when the tool renders errors in a form the oracle knows (the first record tells);
+    // a tool with a rendering of its own is judged on the number of records alone.
+    if which == "stderr" {
+        if let (Some(r), Some(w)) = (recs.first(), want.first()) {
+            if !record_matches(r, w) {
+                return None;
+            }
+        }
+    }
     for (i, (r, w)) in recs.iter().zip(want.iter()).enumerate() {
-        if !w.iter().any(|alt| contains(r, alt.as_bytes())) {
+        if !record_matches(r, w) {
             return Some((
                 format!("{}-record-content", which),
                 format!(
